@@ -106,6 +106,11 @@ def falsify(ctx):
     # the same hash seed in many fresh processes (memory layout varies), then different seeds
     id_cases = [many_roots_case(rng) for _ in range(ctx.n(6, 40))] + [gen_case(rng) for _ in range(ctx.n(10, 60))]
     from .. import gen as _gen
+    for _ in range(ctx.n(8, 40)):
+        # a rootless cycle with a model used by two classes inside it: its place depends on which parent is picked
+        job = common.gen_job(rng, layout=rng.choice(["flat", "flat", "nested"]))
+        job["preamble"] = None
+        id_cases.append({"inputs": [["Node", [_gen.gen_recursive_tree(rng)]]], "cmps": [["percent", 7, 10], ["number", 10]], "job": job})
     for _ in range(ctx.n(4, 30)):
         job = common.gen_job(rng)
         job["preamble"] = None
